@@ -598,6 +598,11 @@ acquire_stop(struct AcquireRuntime* self_)
                   &video->sink.in, &video->monitor.reader, nbytes);
                 TRACE("[stream: %d] Monitor flushed %llu bytes", i, nbytes);
             } while (nbytes);
+            // A client polling from another thread can collide with the flush
+            // above (both map the same reader). The reader has been moved to
+            // the writer's position, so the error is spent: clear it, or every
+            // acquire_map_read() from now on would fail.
+            video->monitor.reader.status = Channel_Ok;
         }
 
         // Everything has been consumed: start the next acquisition at the
